@@ -231,8 +231,8 @@ func fieldOf(v Value, i int) Value {
 	return Value{T: st.Field(i).Type(), L: v.L[lo:hi]}
 }
 
-func isSlice(t types.Type) bool  { _, ok := t.Underlying().(*types.Slice); return ok }
-func isIface(t types.Type) bool  { _, ok := t.Underlying().(*types.Interface); return ok }
+func isSlice(t types.Type) bool { _, ok := t.Underlying().(*types.Slice); return ok }
+func isIface(t types.Type) bool { _, ok := t.Underlying().(*types.Interface); return ok }
 func isString(t types.Type) bool {
 	b, ok := t.Underlying().(*types.Basic)
 	return ok && b.Info()&types.IsString != 0
